@@ -338,23 +338,42 @@ theorem beginTag_ok {fuel : Nat} (ih : FileSpecs AP EL S pf ef N fuel) (st : FSt
     apply (ih.parseCall token st1 hs1 (upw% hi1) (by omega) (by omega)).mono
     intro n st2 ⟨hc2, hi2, hm2⟩
     exact FSafe.pure ⟨fun n' h => by cases h; first | exact hc2 | exact ⟨by obtain ⟨_, _, _, rfl, _⟩ := hc2.1; trivial, hc2.2⟩, hi2, by omega⟩
-  · -- literal
+  · -- literal (the text token is optional: an empty literal block, /repo aea8825)
     apply FSafe.bind
     apply fexpect_safe hz (upw% hi1) (by decide)
     intro t2 st2 hi2 _ _ _ hm2 _
     apply FSafe.bind
-    apply fexpect_safe hz hi2 (by decide)
-    intro t3 st3 hi3 hs3 _ _ hm3 _
+    apply fnext_safe hz hi2
+    intro t3 st3 hi3 hs3 hpc3 ht3 hm3 _
     apply FSafe.bind
-    apply fexpect_safe hz hi3 (by decide)
-    intro t4 st4 hi4 _ _ _ hm4 _
-    apply FSafe.bind
-    apply fexpect_safe hz hi4 (by decide)
-    intro t5 st5 hi5 _ _ _ hm5 _
-    apply FSafe.bind
-    apply fexpect_safe hz hi5 (by decide)
-    intro t6 st6 hi6 _ _ _ hm6 _
-    exact FSafe.pure ⟨fun n' h => by cases h; exact ⟨trivial, by np⟩, hi6, by omega⟩
+    split
+    · rename_i htx
+      apply FSafe.pure
+      apply FSafe.bind
+      apply fexpect_safe hz (upw% hi3) (by decide)
+      intro t4 st4 hi4 _ _ _ hm4 _
+      apply FSafe.bind
+      apply fexpect_safe hz hi4 (by decide)
+      intro t5 st5 hi5 _ _ _ hm5 _
+      apply FSafe.bind
+      apply fexpect_safe hz hi5 (by decide)
+      intro t6 st6 hi6 _ _ _ hm6 _
+      exact FSafe.pure ⟨fun n' h => by cases h; exact ⟨trivial, by np⟩, hi6, by omega⟩
+    · apply FSafe.bind
+      apply fbackup_safe hi3 (by have := hi2.1; omega)
+      intro st3' hi3' hm3' _
+      rw [ht3] at hm3'
+      apply FSafe.pure
+      apply FSafe.bind
+      apply fexpect_safe hz hi3' (by decide)
+      intro t4 st4 hi4 _ _ _ hm4 _
+      apply FSafe.bind
+      apply fexpect_safe hz hi4 (by decide)
+      intro t5 st5 hi5 _ _ _ hm5 _
+      apply FSafe.bind
+      apply fexpect_safe hz hi5 (by decide)
+      intro t6 st6 hi6 _ _ _ hm6 _
+      exact FSafe.pure ⟨fun n' h => (by cases h), hi6, by omega⟩
   · -- css
     apply FSafe.bind
     apply parseCss_safe hz pf hlex token st1 _ hs1 (upw% hi1)
